@@ -1,0 +1,19 @@
+//go:build verif
+
+// Harness primitives of the verification machinery in /verif (govc). This file is only compiled with -tags verif;
+// it adds no behaviour to the package. The contracts live in zz_verif_contracts_<property>.go.
+package tbtree
+
+// verifAssume / verifAssert are the harness primitives: govc treats them as assumption and obligation;
+// natively (replays) a violated assertion panics with its label.
+func verifAssume(c bool) {
+	if !c {
+		panic("verifAssume: precondition of the harness not met")
+	}
+}
+
+func verifAssert(label string, c bool) {
+	if !c {
+		panic("verifAssert violated: " + label)
+	}
+}
